@@ -133,6 +133,15 @@ def parse_directive_text(
         parse_warnings = []
         has_options_block = False
         options = {}
+        if additional_options:
+            # report the dropped options as for a directive with an option spec
+            parse_warnings.append(
+                ParseWarnings(
+                    f"Unknown option keys: {sorted(additional_options)} (allowed: [])",
+                    line,
+                    MystWarnings.DIRECTIVE_OPTION,
+                )
+            )
         body_lines = split_lines(content)
         content_offset = 0
 
